@@ -12,7 +12,7 @@ Stream `ptext` (spec validation of Model/C11EConv.v:parse_pvalue, the reader of 
 driver harness/impl/c11e.py builds live vlsir ParamValue messages and prints them with harness/impl/designlib.py:pval_str; Coq
 parses the text and compares with the same message as the C11 printer reads it (code 3 on disagreement).
 """
-import json
+import json, time
 from decimal import Decimal
 from . import core, design as D, c01e, c01f, c11
 
@@ -82,7 +82,7 @@ def ptext_values(seed, quick):
             "1_000", "1.2.3", "1E", "1E+", "E+3", "--1", "1.5e-7", "123456789012345678901234567890.5", "1.5E+30", "1000000", "1E+6",
             "0.1E-5", "1.0E-6", "0.000001000", "9.99E-7", "-1E-7", "12345678901234567890", "1E+1", "10", "1.0E+1", "100E-2", "1.00"]
     vals += [["pre", p, ["str", t]] for t in decs for p in ("UNIT", "MICRO")]
-    for k in range(300 if quick else 6000):
+    for k in range(200 if quick else 6000):
         r = core.rng(seed, "C11", "ptext", k)
         nd = r.choice([1, 1, 2, 3, 5, 8, 17, 28, 40])
         coef = r.randrange(10 ** (nd - 1) if r.random() < 0.8 else 0, 10 ** nd)
@@ -118,8 +118,11 @@ def run_ptext(run, seed, quick):
 
 def run_tie(run, tier, seed, replay=None):
     quick = tier == "quick"
+    t0 = time.time()
     if replay is None:
         run_ptext(run, seed, quick)
+        run.coverage["streams"]["ptext"]["wall_s"] = round(time.time() - t0, 1)
+    t0 = time.time()
     if replay is not None:
         if replay.get("stream") != STREAM:
             return
@@ -127,8 +130,8 @@ def run_tie(run, tier, seed, replay=None):
     else:
         corp = corpus() + [d for d, _ in c01e.corpus()] + c01f.corpus()
         gen = [D.gen_design(core.rng(seed, "C11", "e-designs", k), size=core.rng(seed, "C11", "e-size", k).choice([1, 2, 2, 3]))
-               for k in range(200 if quick else 4000)]
-        designs = corp + gen + c01e.array_ref_designs(seed, 20 if quick else 300) + c01f.nested_designs(seed, 50 if quick else 600)
+               for k in range(130 if quick else 4000)]
+        designs = corp + gen + c01e.array_ref_designs(seed, 12 if quick else 300) + c01f.nested_designs(seed, 36 if quick else 600)
         ncorp = len(corp)
     jobs = [dict(source="design", design=d) for d in designs]
     outs = core.run_worker_sharded("c11", jobs, timeout=1800)
@@ -179,7 +182,9 @@ def run_tie(run, tier, seed, replay=None):
                            impl=outs[i], failing_cases=sum(1 for j in rest if code[j] == code[i])), found_input=False)
     if replay is None:
         run.sample(dict(stream=STREAM, design=designs[ncorp + 1] if n > ncorp + 1 else designs[0]))
-        if len(tied) < (150 if quick else 2500):
+        if len(tied) < (100 if quick else 2500):
             run.violation("C11:coverage:model_roundtrip", f"only {len(tied)} designs tied the model's package to the implementation's",
                           dict(kind="coverage"), found_input=False)
+    if STREAM in run.coverage.get("streams", {}):
+        run.coverage["streams"][STREAM]["wall_s"] = round(time.time() - t0, 1)
     run.coverage["c11e_tie"] = dict(designs=n, tied=len(tied), codes={str(c): sum(1 for i in range(n) if code[i] == c) for c in set(code.values())})
